@@ -463,12 +463,18 @@ def clauses(tier, seed):
       Clause('exact:closure of the invariants under one step of every integrator (abstract/exact runs of the real step functions)', 'exact',
              integ, run_step_closure, group='symx'),
       Clause('twin:trajectories keep the invariants [bounded]', 'numeric', fns + integ, run_trajectory_twin, replay=replay_invariants, group='jax-e', heavy=True),
-  ]
+  ] + _operator_clauses()
+
+
+def _operator_clauses():
+  """All sizes: every shallow-water explicit tendency is `clip_wavenumbers(...)` of an expression that contains the orography (operator-expression contract)."""
+  from contracts import wind_contracts
+  return wind_contracts.sw_clauses()
 
 
 MANIFEST = {
-    'engine': 'jxa+symx',
-    'technique': 'contract-based: structural-zero/constant/dependence analysis of the traced tendencies (all inputs), exact-zero matrix blocks for the linear parts, abstract-domain and exact-scalar runs of the real step functions for closure under every integrator; inductive step count via C14',
+    'engine': 'pyvc+jxa+symx',
+    'technique': 'contract-based: shallow-water explicit tendencies proved to be clip_wavenumbers(...) of the documented operator expression with the orography inside (pyvc operator-algebra mode, all sizes); structural-zero/constant/dependence analysis of the traced tendencies (all inputs), exact-zero matrix blocks for the linear parts, abstract-domain and exact-scalar runs of the real step functions for closure under every integrator; inductive step count via C14',
     'text': ('other: layer 1 (closure under every integrator and filter stack, hence every step count with C14) is deductive; layer 2 is deductive per '
              'configuration for the nonlinear tendencies (static analysis, all finite inputs) and complete-over-states numeric for the linear parts; '
              'bounded over grids/level sets; moist (0,0) corrections and the uniform tracer hold to rounding only and are checked numerically.'),
